@@ -1,7 +1,7 @@
 (** * C01 -- every built-in gate acts as its documented unitary on exactly the masked qubits.
     Statements only; each is closed by a lemma of [Proofs/]. *)
 From Coq Require Import Reals.
-From QV Require Import Spec ScalarR C01T.
+From QV Require Import Spec ScalarR C01M C01T.
 Open Scope R_scope.
 
 Theorem C01_single_bit : C01_single_bit_stmt.
@@ -19,3 +19,15 @@ Print Assumptions C01_two_bit.
 Theorem C01_refuse : C01_refuse_stmt.
 Proof. exact C01_refuse_proof. Qed.
 Print Assumptions C01_refuse.
+
+Theorem C01_multi_bit : C01_multi_bit_stmt.
+Proof. exact C01_multi_bit_proof. Qed.
+Print Assumptions C01_multi_bit.
+
+Theorem C01_multi_bit_y : C01_multi_bit_y_stmt.
+Proof. exact C01_multi_bit_y_proof. Qed.
+Print Assumptions C01_multi_bit_y.
+
+Theorem C01_multi_bit_h : C01_multi_bit_h_stmt.
+Proof. exact C01_multi_bit_h_proof. Qed.
+Print Assumptions C01_multi_bit_h.
